@@ -870,6 +870,10 @@ import threading
 WINDOW_CEILING = 3.0
 WINDOW_GATES = ("in_write", "after_send", "after_async_request")
 WINDOW_KINDS = ("async_value", "async_exception", "sync_value")
+# a SECOND SENDER instead of a second receiver: while the first thread is inside channel.send() (holding the send lock),
+# another thread of the same side issues its own request; then everything is quiet.  Both requests must reach the peer
+# and be answered (the sender that holds the lock drains what was queued meanwhile).
+TWO_SENDERS = dict(kind="window", request="two_senders", gate="in_write")
 
 
 class Infrastructure(Exception):
@@ -923,15 +927,22 @@ def run_window(kind, gate):
         except BaseException:  # noqa
             pass
 
+    second = {}
+
     def second_thread():
-        # another thread of side A: when asked, it serves the connection once (waiting for the reply to arrive)
+        # another thread of side A: when asked, it serves the connection once (waiting for the reply to arrive) —
+        # or, in the two-senders run, issues a request of its own
         while True:
             pump_req.wait()
             pump_req.clear()
             if stop.is_set():
                 return
             try:
-                res["pumped_dispatch"] = bool(ca.serve(WINDOW_CEILING / 2))
+                if kind == "two_senders":
+                    second["ar"] = rpyc.async_(second["fn"])(1, 2)
+                    res["pumped_dispatch"] = "second request issued"
+                else:
+                    res["pumped_dispatch"] = bool(ca.serve(WINDOW_CEILING / 2))
             except BaseException as ex:  # noqa
                 res["pumped_dispatch"] = "raised %s" % type(ex).__name__
             pump_done.set()
@@ -967,6 +978,7 @@ def run_window(kind, gate):
     try:
         root = ca.root
         fn = root.fail if kind == "async_exception" else root.add
+        second["fn"] = root.add
         expected = ("X", 5) if kind == "async_exception" else ("R", 12)
 
         def mark():
@@ -1002,6 +1014,19 @@ def run_window(kind, gate):
             sys.settrace(None)
         res["outcome"] = "%s%d" % got
         res["expected"] = "%s%d" % expected
+        if kind == "two_senders":
+            # then quiet: nobody sends anything else; the second request must have been written and answered too
+            try:
+                ar2 = second.get("ar")
+                if ar2 is None:
+                    got2 = ("NONE", 0)
+                else:
+                    ar2.set_expiry(WINDOW_CEILING)
+                    got2 = ("R", ar2.value)
+            except BaseException as ex:  # noqa
+                got2 = ("TO", 0) if type(ex).__name__ in ("AsyncResultTimeout", "TimeoutError") else ("X", 0)
+            res["outcome"] += ",%s%d" % got2
+            res["expected"] += ",R3"
     finally:
         stop.set()
         pump_req.set()
@@ -1020,6 +1045,10 @@ def run_window(kind, gate):
 def window_oracle(res):
     if res["outcome"] == "skipped":
         return None
+    if res["kind"] == "two_senders" and res["outcome"] != res["expected"]:
+        return ("two threads of one side sending at once (the second while the first is inside channel.send()), then quiet: "
+                "the requesters got %s instead of %s — a request that was queued behind the sender was never written"
+                % (res["outcome"], res["expected"]), "C08:queued-request-never-sent")
     if res["outcome"] != res["expected"]:
         return ("%s request with another thread of the same side serving %s: the other thread dispatched the reply (%r), "
                 "the requester got %s instead of %s" % (res["kind"], {"in_write": "while the request was being written",
@@ -1030,7 +1059,7 @@ def window_oracle(res):
 
 
 def window_cases():
-    return [dict(kind="window", request=k, gate=g) for k in WINDOW_KINDS for g in WINDOW_GATES]
+    return [dict(kind="window", request=k, gate=g) for k in WINDOW_KINDS for g in WINDOW_GATES] + [dict(TWO_SENDERS)]
 
 
 # ---------------------------------------------------------------------------------------------- correspondence
@@ -1123,9 +1152,12 @@ def correspondence(ctx):
             c.count("window-run-repeated")      # real threads: repeated once before it is believed
             res = run_window(case["request"], case["gate"])
         wres.append((case, res))
-        wlines.append("ledger run 0 0 iA%s dB FB%s:%d dA" % ("s" if case["request"] == "sync_value" else "a",
-                                                            "x" if case["request"] == "async_exception" else "v",
-                                                            5 if case["request"] == "async_exception" else 12))
+        if case["request"] == "two_senders":
+            wlines.append("ledger run 0 0 iAa iAa dB FBv:12 dB FBv:3 dA dA")
+        else:
+            wlines.append("ledger run 0 0 iA%s dB FB%s:%d dA" % ("s" if case["request"] == "sync_value" else "a",
+                                                                "x" if case["request"] == "async_exception" else "v",
+                                                                5 if case["request"] == "async_exception" else 12))
     try:
         wouts = run_driver(wlines, exe="drv_proto")
     except DriverError as ex:
